@@ -484,6 +484,9 @@ def run(ctx):
     # correspondence of the translation user dictionaries -> events -> epochs (PGModel/ConfigDemo.lean `toEvents`, driver command
     # `cfgepochs`) with the real Demography(pop_sizes=..., migration_rates=...) behind a Coalescent, epoch by epoch in axis order
     check.pmap(ctx, 'props.corr_models', 'one_cfg_epochs', list(range(12 if ctx.quick else 120)), case_timeout=300)
+    # the MUTABLE Demography object and its hand-over to Coalescent (PGModel/DemoObj.lean, driver command `demoobj`): random
+    # histories of constructor / add_events / add_event / epochs / reads / Coalescent(...) on a real object against the model
+    check.pmap(ctx, 'props.corr_models', 'one_demoobj', list(range(8 if ctx.quick else 80)), case_timeout=300)
 
 
 def replay(ctx, payload):
